@@ -1581,6 +1581,18 @@ example : (plan exCluster ⟨some (.dcRack 0 1), true, false⟩ exRq ρp1 ρf1).
 example : (lwtReplicas exCluster exCfg exRqLwt).map (·.1.id) = [3, 5, 3, 4] ∧
     (uniqueBy (lwtReplicas exCluster exCfg exRqLwt)).map (·.1.id) = [3, 5, 4] ∧
     (plan exCluster exCfg exRqLwt ρp1 ρf1).map (·.1.id) = [3, 5, 4, 1, 6, 2] ∧ exRqLwt.routeAsLwt = true := by decide
+-- the classes in model-independent terms: by the placement rule of C04 the replicas of token 160 under NTS {0: 2, 1: 2}
+-- are 2, 3 (datacenter 0) and 5, 4 (datacenter 1); node 3 is a live replica in the preferred datacenter but not rack
+example : (specReplicas exRing (.nts [(0, 2), (1, 2)]) 160).map (·.id) = [2, 3, 5, 4] := by decide
+example : LiveReplica exCluster exCfg exRq ⟨3, some 0, some 3⟩ ∧ LocalDc exCfg exRq ⟨3, some 0, some 3⟩ ∧
+    ¬ LocalRack exCfg exRq ⟨3, some 0, some 3⟩ ∧ Permitted exCfg exRq ⟨5, some 1, some 1⟩ :=
+  ⟨⟨(.nts [(0, 2), (1, 2)], 160), by decide, by decide, by decide⟩, ⟨0, by decide, by decide⟩,
+    by
+      rintro ⟨d, r, h1, _, h3⟩
+      have : preference exCfg exRq = .dcRack 0 1 := by decide
+      rw [this] at h1
+      cases h1
+      revert h3; decide, Or.inr (Or.inl rfl)⟩
 example : shuffleWith [1, 0, 5] [10, 20, 30] = [20, 10, 30] := by decide
 
 end ScyllaVerif.Props.C05
